@@ -1,6 +1,7 @@
 package wire
 
 import (
+	"bytes"
 	"encoding/hex"
 	"encoding/json"
 	"encoding/xml"
@@ -253,6 +254,21 @@ func hostileString(r *gen.Rand, class string, maxLen int) string {
 
 // ---------------------------------------------------------------------------------------------
 
+// maskCTL replaces, in the header block only, control bytes other than CR, LF and HTAB by '?'.
+func maskCTL(out []byte) []byte {
+	b := append([]byte(nil), out...)
+	end := bytes.Index(b, []byte("\r\n\r\n"))
+	if end < 0 {
+		end = len(b)
+	}
+	for i := 0; i < end; i++ {
+		if c := b[i]; (c < 0x20 && c != '\r' && c != '\n' && c != '\t') || c == 0x7f {
+			b[i] = '?'
+		}
+	}
+	return b
+}
+
 func names(r *strict.Response) map[string]int {
 	m := map[string]int{}
 	for _, n := range r.Names() {
@@ -448,16 +464,49 @@ func injectCase(e *ev.Env, c *ev.Case, h *helper, a injArgs, class string) {
 	e.Sample("helper-call", map[string]any{"helper": h.name, "class": class, "v": show([]byte(a.V)), "w": show([]byte(a.W))})
 	detail["output"] = show(out)
 
+	violated := false
+	report := func(c *ev.Case, sig, what string, d any) {
+		violated = true
+		e.Violation(c, sig, what, d)
+	}
+	isFlash := strings.HasPrefix(h.name, "Flash.")
 	rs, perr := strict.ParseAll(out, nil)
+	if perr != nil && (perr.Class == "header-value-nul" || perr.Class == "header-value-ctl") && !isFlash {
+		// A control byte other than CR/LF that the handler itself put into the value breaks no
+		// line structure (clause 4 is about an added header line or a moved body start): look
+		// at the same bytes with those control bytes masked; if nothing else is wrong, count.
+		if rs2, perr2 := strict.ParseAll(maskCTL(out), nil); perr2 == nil {
+			rs, perr = rs2, nil
+			detail["ctl_masked"] = true
+			defer func() {
+				if !violated {
+					e.Stat("ctl_byte_in_own_value_only", 1)
+					e.Stat("ctl_byte_in_own_value_only_"+h.name, 1)
+				}
+			}()
+		}
+	}
 	if perr != nil {
 		detail["parse_error"] = perr.Error()
 		detail["at_header"] = headerAt(out, perr.Off)
-		e.Violation(c, sig, "response rejected by the strict parser ("+perr.Class+") after "+h.name+" got the value", detail)
+		if isFlash {
+			if name, after := injectedLine(out); name != "" {
+				detail["header"] = name
+				report(c, "wellformed|injected-header-line|after:"+after, "a header line named by the value appears after "+h.name, detail)
+				return
+			}
+			// known root cause: the flash cookie is the raw MessagePack encoding
+			detail["class"] = perr.Class + "/" + class
+			e.Stat("flash_cookie_raw_"+perr.Class, 1)
+			report(c, sigFlashRaw, "response rejected by the strict parser ("+perr.Class+") after "+h.name+" got the value", detail)
+			return
+		}
+		report(c, sig, "response rejected by the strict parser ("+perr.Class+") after "+h.name+" got the value", detail)
 		return
 	}
 	if len(rs) != 1 {
 		detail["responses"] = len(rs)
-		e.Violation(c, sig, itoa(len(rs))+" responses to one request after "+h.name+" got the value", detail)
+		report(c, sig, itoa(len(rs))+" responses to one request after "+h.name+" got the value", detail)
 		return
 	}
 	if berr != nil || len(brs) != 1 {
@@ -469,7 +518,7 @@ func injectCase(e *ev.Env, c *ev.Case, h *helper, a injArgs, class string) {
 	for _, o := range h.own {
 		if got[o] > h.ownMax {
 			detail["names"], detail["baseline_names"] = fmtNames(got), fmtNames(want)
-			e.Violation(c, sig, "header "+o+" appears "+itoa(got[o])+" times after one call of "+h.name, detail)
+			report(c, sig, "header "+o+" appears "+itoa(got[o])+" times after one call of "+h.name, detail)
 			return
 		}
 		delete(got, o)
@@ -482,18 +531,18 @@ func injectCase(e *ev.Env, c *ev.Case, h *helper, a injArgs, class string) {
 	}
 	if fmtNames(got) != fmtNames(want) {
 		detail["names"], detail["baseline_names"] = fmtNames(got), fmtNames(want)
-		e.Violation(c, sig, "header lines differ from the benign call of "+h.name+": got {"+fmtNames(got)+"} want {"+fmtNames(want)+"}", detail)
+		report(c, sig, "header lines differ from the benign call of "+h.name+": got {"+fmtNames(got)+"} want {"+fmtNames(want)+"}", detail)
 		return
 	}
 	wantStatus := b.Status
 	if r.Status != wantStatus {
 		detail["status_got"], detail["status_want"] = r.Status, wantStatus
-		e.Violation(c, sig, "status "+strconv.Itoa(r.Status)+" instead of "+strconv.Itoa(wantStatus)+" after "+h.name+" got the value", detail)
+		report(c, sig, "status "+strconv.Itoa(r.Status)+" instead of "+strconv.Itoa(wantStatus)+" after "+h.name+" got the value", detail)
 		return
 	}
 	if h.name == "SendStatus" {
 		if r.Status != a.Status {
-			e.Violation(c, "inject|SendStatus|status", "SendStatus("+itoa(a.Status)+") answered "+itoa(r.Status), detail)
+			report(c, "inject|SendStatus|status", "SendStatus("+itoa(a.Status)+") answered "+itoa(r.Status), detail)
 		}
 		return
 	}
@@ -507,6 +556,6 @@ func injectCase(e *ev.Env, c *ev.Case, h *helper, a injArgs, class string) {
 	}
 	if string(r.Body) != wantBody {
 		detail["body"], detail["body_want"] = show(r.Body), show([]byte(wantBody))
-		e.Violation(c, sig, "body differs from what "+h.name+" must produce", detail)
+		report(c, sig, "body differs from what "+h.name+" must produce", detail)
 	}
 }
